@@ -338,3 +338,14 @@ package reconciling
 //@ noframe
 //@ before reformat assert (r.mode == 1 && arg0 == r.Value) || (r.mode != 0 && r.mode != 1 && arg0 == autoStyle)
 //@ ensures true
+
+// indexOfLastSignificantLine (properties C03, C11): the overall index just past the record's last line - the end of
+// the block's first run of non-blank lines, where blank means blank for the file format (whitespace-only lines
+// included): the line before it is not blank, the line at it (if any) is blank, and every blank line before it belongs
+// to the block's leading blank lines. This is where the reconciler's lastLinePointer comes from.
+//@ func indexOfLastSignificantLine
+//@ requires typeis(block, *txt.block)
+//@ let ls = block.(*txt.block).lines
+//@ let L = result - block.(*txt.block).precedingLineCount
+//@ ensures 1 <= L && L <= len(ls) && !txt.blank(ls[L-1]) && (L == len(ls) || txt.blank(ls[L]))
+//@ ensures forall(i, 0, L, implies(txt.blank(ls[i]), forall(j, 0, i, txt.blank(ls[j]))))
